@@ -48,6 +48,21 @@ CHECKS.update({
         "Exact solves limited to daily length 100 (quick) / 400 (thorough); period means outside int16 are SKIPped.", "7/C20"),
 })
 
+CHECKS.update({
+    "C10": _c("tlc-mannkendall", "TLC exhaustive model check of spec/MannKendall.tla over all rank patterns + TLC validation of kernel/wrapper/accessor results (exact S, Var(S), tau, Sen slope; p and flag through a normal table)",
+        "TLC checks, for every rank pattern (one per weak order) of length 2..6/7, that the kernels' loops equal the declarative S, tie-corrected Var(S) and Sen median and that the stated symmetries hold (rank-only dependence, sign flips, slope scaling). The same patterns are executed on the compiled gufuncs (bulk) and random series up to n = 200 with linked monotone / negated / reversed copies on all entry points; TLC recomputes tau and the slope as exact rationals, brackets the p-value in one cell of a table of 2(1-Phi(k/2000)) located by comparing Z^2 exactly, and decides the trend flag through the bracketed 0.975 quantile.",
+        "Phi is supplied as a table generated from erfc and cross-checked against two other implementations; p is checked to one grid cell (<= 4e-4 absolute).", "7/C10"),
+    "C12": _c("tlc-concurrency", "TLC model check of the lazycompile wrapper (2-3 threads, invariants + liveness) and of a blocked-apply model; TLC trace validation of EVERY interleaving of two racing first calls of the real wrapper under a sys.monitoring scheduler; eager-vs-dask configuration matrix decided by TLC",
+        "The wrapper's check-then-act race is a TLA+ machine with one action per critical point; TLC explores all interleavings for 2 and 3 threads (cell only ever holds a finished kernel, only kernels are called, every call returns F, termination under fairness). The real wrapper is driven through every interleaving of its bytecode-level critical points for two racing first calls (stateless DFS, deterministic scheduler built on sys.monitoring, no repo hook), a bounded DFS for 2+1 calls and a seeded sample for three threads; every execution is validated step by step by TLC. Real numba compiles are raced in fresh subprocesses. For 18 accessor operations the eager result is compared by TLC with dask runs over chunkings, schedulers, dimension orders, permuted pixels and a chunked time axis (refuse or equal); the prange kernel is run under every thread count.",
+        "Only Python-level yield points are scheduled deterministically; numba's lock, dask's schedulers and the prange runtime are exercised, not enumerated.", "7/C12"),
+    "C15": _c("tlc-autocorr", "TLC exhaustive model check of spec/Autocorr.tla (running-sum formula = mean-filled Pearson) + TLC validation of every API/encoding/layout result against the exact rational correlation",
+        "TLC checks on all series of length 3..6/7 over {missing,0,1,2,5} that the kernels' running-sum formula equals the mean-filled Pearson correlation (squared value and sign, exactly), lies in [-1,1] and is invariant under positive affine maps; a negative control shows the pinned numerator violates it. Real results of autocorr_1d (int/nodata and float/NaN), autocorr, autocorr_tyx and the accessor (both layouts, numpy and dask) are decided by TLC against the exact rational C, VarX, VarY: r^2 VarX VarY = C^2 within 1e-5, sign, zero rule, range.",
+        "float32 tolerance 1e-5 on r^2; the float64 helper autocorr_1d is allowed 1e-12 above 1.", "7/C15"),
+    "C16": _c("tlc-zonal", "TLC model check of spec/Zonal.tla (exact accumulation = contract, accumulator-width experiment) + TLC validation of do_mean / zonal.mean on run-length encoded rasters up to 2.5e7 pixels per zone",
+        "TLC checks that exact accumulation equals the declarative per-zone mean and count, that rearranging pixels changes nothing, and -- with a parametric floating format -- that accumulating in the output format breaks the contract while a wide accumulator with one final rounding meets it. Real calls of do_mean and hdc.zonal.mean (float32/float64, numpy/dask) are recorded with the raster as a run-length encoded pixel stream; TLC computes the exact sum and count per (time, zone) from the runs and requires the mean within 4 ulp of the output dtype and the count exactly as the dtype can hold it, NaN/0 for empty zones.",
+        "Zones up to 1e6 pixels in quick, 2.5e7 in thorough.", "7/C16"),
+})
+
 NOT_YET = "check not built yet in this round (see DESIGN.md section 11 for the build order)"
 
 
